@@ -118,6 +118,20 @@ def noisy_world(seed, n_chroms=3):
                         continue
                     ex[k] = (ex[k][0], ex[k][1] + sh)
                     w.make_read(t.chrom, ex, indels=1, mismatches=2, truth={"src": t.id, "class": "noisy-junction"})
+    # unspliced reads aligned up to the very LAST base of a sequence (a short contig, a linearised circular genome) that continue with a
+    # few unaligned non-A bases and a tail, both soft-clipped; and their mirror image at the very first base (clipped bases and a T head)
+    for ci, chrom in enumerate(main_chroms[:2]):
+        clen = w.chrom_len(chrom)
+        if max([g.end for g in w.genes if g.chrom == chrom] + [1000]) + 6000 < clen:
+            for k in range(8):
+                r_ = w.make_read(chrom, [(clen - rng.randint(700, 900), clen)], truth={"class": "unspliced-up-to-the-last-base"})
+                r_.cigar.append((4, 30))
+                r_.seq += "CGTCG" + "A" * 25
+        if min([g.start for g in w.genes if g.chrom == chrom] + [clen]) > 4000 and ci == 1:
+            for k in range(8):
+                r_ = w.make_read(chrom, [(1, rng.randint(700, 900))], truth={"class": "unspliced-from-the-first-base"})
+                r_.cigar.insert(0, (4, 30))
+                r_.seq = "T" * 25 + "CGACG" + r_.seq
     return w
 
 
